@@ -53,7 +53,7 @@ def main():
                        "level_note": NOTES.get(pid, COMMON_NOTE), "technique": tech})
     claimed = sorted(CHECKS)
     m = {"version": 1,
-         "setup_cmd": "cd /verif/harness && cargo build --release --offline && cd /verif/spec && for f in *.tla; do tla-sany $f >/dev/null || exit 1; done",
+         "setup_cmd": "cd /verif/harness && cargo build --release --offline && cargo build --release --offline --manifest-path /repo/Cargo.toml --bin xml_schema_generator --target-dir /verif/harness/target/cli && cd /verif/harness/genprog && mkdir -p src && (test -f src/main.rs || echo 'fn main(){}' > src/main.rs) && cargo build --offline && cd /verif/spec && for f in *.tla; do tla-sany $f >/dev/null || exit 1; done",
          "hooks": {"guard": "cargo feature xsg_verif",
                    "enable": "the harness depends on /repo by path with features = [\"xsg_verif\"] (harness/Cargo.toml); cargo build --release --offline in /verif/harness",
                    "baseline_off_cmd": "cd /repo && cargo test --workspace --no-fail-fast --offline",
